@@ -285,6 +285,24 @@ def digit_loop(run, m, F, E):
                     v0, r0 = eval_in(env, I.as_u(s2, val)), eval_in(env, radix.lin)
                     problems.append('a path that skips the digit loop stores %d digit(s), but value %d in radix %d needs %d; witness %s' %
                                     (room, v0, r0, needs(v0, r0), own.fmt_env(env)))
+                # ... and the last of them (the unit in front of the terminator) is the character of value % radix in the requested case
+                dst = [e for e in s2.events if e[0] == 'fmt-store' and e[3] == 1 and isinstance(e[4], IntV) and
+                       not (not e[4].lin.t and e[4].lin.c == 0) and not e[2].t and e[2].c == bits - 1]
+                if len(dst) == 1 and env is None:
+                    dvl = dst[0][4].lin
+
+                    def wrong(v):
+                        d_ = v[0] % max(v[1], 2)
+                        exp_c = 0x30 + d_ if d_ < 10 else (0x41 if v[2] & 1 else 0x61) + d_ - 10
+                        return (v[3] & 0xFF) != exp_c
+                    env2 = s2.find_model([I.as_u(s2, val), radix.lin, up.lin, dvl], wrong)
+                    if env2 is not None:
+                        v0, r0, u0 = eval_in(env2, I.as_u(s2, val)), eval_in(env2, radix.lin), eval_in(env2, up.lin)
+                        c0 = eval_in(env2, dvl)
+                        d0 = v0 % r0
+                        problems.append('a path that skips the digit loop renders the digit %d (value %d, radix %d, %s case) as %r, expected %r; witness %s' %
+                                        (d0, v0, r0, 'upper' if u0 & 1 else 'lower', chr(c0 & 0xFF),
+                                         chr(0x30 + d0 if d0 < 10 else (0x41 if u0 & 1 else 0x61) + d0 - 10), own.fmt_env(env2)))
             if o.kind == 'backedge':
                 nb += 1
                 b = s2.flags.get('wbegin:' + f.name) or {}
